@@ -930,6 +930,10 @@ func matchTypeCast(pkg *Package, typ types.Type, fn *internal.Elem, args []*inte
 	case *types.Basic:
 		if len(args) == 1 {
 			if ret, ok := CastFromBool(&pkg.cb, typ, args[0]); ok {
+				if ret.CVal != nil { // T(true), T(false): the constant 1 or 0 converted to T, not a bare untyped constant
+					args = []*internal.Elem{ret}
+					goto finish
+				}
 				return ret, nil
 			}
 		}
